@@ -1,7 +1,8 @@
 (* C12 — Repair re-assembles features fragmented by split/join, changes
    nothing else.  The model is gts.Repair after the fix that merges fragments
    as units (mergeFragments). *)
-From GTS Require Import Base Arith Loc Seq Repair RepairProofs RestoreProofs.
+From GTS Require Import Base Arith Loc Seq Repair RepairProofs RestoreProofs RepairDen RepairTable.
+From Coq Require Import Permutation.
 Open Scope Z_scope.
 
 (* two fragments merge ONLY when the last range of the first ends exactly
@@ -56,9 +57,94 @@ Theorem C12_complement_range_restored : forall s e p5 p3 c L force, 0 <= s < c -
 Proof. exact complement_range_restored. Qed.
 Print Assumptions C12_complement_range_restored.
 
-(* PARTIAL: idempotence, restoration of multi-part features and after several
-   cuts, and the table-level "unchanged" clause are decided by the
-   correspondence and the oracle. *)
+(* never changes the residues covered by a class.  rgood: every range runs
+   forward.  Two fragments that merge are replaced by one location denoting
+   the residues of both (as a multiset of stranded positions: on the reverse
+   strand the merged location lists the second fragment's residues first);
+   hence the merge pass over a class, after sorting, covers exactly what the
+   class covered. *)
+Theorem C12_merge_keeps_residues : forall force a b m, rgood a -> rgood b ->
+  merge_fragments a b force = Some m ->
+  Permutation (den m) (den a ++ den b) /\ rgood m.
+Proof. exact merge_fragments_den. Qed.
+Print Assumptions C12_merge_keeps_residues.
+
+(* one class (the features of gg at `indices`, pairwise different positions of
+   the table): after the step the kept features of the class -- a prefix of
+   its indices -- cover exactly the residues the class covered; every feature
+   outside the class is untouched; every feature of the table keeps key and
+   qualifiers; the table keeps its length. *)
+Theorem C12_class_step : forall ff gg indices,
+  NoDup indices -> Forall (fun i => (i < length gg)%nat) indices ->
+  Forall rgood (map (fun i => floc (nth_feat gg i)) indices) ->
+  let '(gg', kept) := repair_group ff gg indices in
+  Permutation (DD (map (fun i => floc (nth_feat gg' i)) kept)) (DD (map (fun i => floc (nth_feat gg i)) indices)) /\
+  (exists k, kept = firstn k indices) /\
+  (forall j, ~ In j indices -> nth_feat gg' j = nth_feat gg j) /\
+  (forall j, fkey (nth_feat gg' j) = fkey (nth_feat gg j) /\ fprops (nth_feat gg' j) = fprops (nth_feat gg j)) /\
+  length gg' = length gg.
+Proof. exact repair_group_spec. Qed.
+Print Assumptions C12_class_step.
+
+Example C12_class_step_example :
+  let p := [[[103]; [97]]] in
+  let gg := [mkfeat [67] (Complemented (Ranged 6 9 true false)) p; mkfeat [120] (Point 3) [];
+             mkfeat [67] (Complemented (Joined [Ranged 0 2 false false; Ranged 4 6 false true])) p] in
+  NoDup [0; 2]%nat /\ Forall rgood (map (fun i => floc (nth_feat gg i)) [0; 2]%nat) /\
+  repair_group gg gg [0; 2]%nat =
+    ([mkfeat [67] (Complemented (Joined [Ranged 0 2 false false; Ranged 4 9 false false])) p; mkfeat [120] (Point 3) [];
+      mkfeat [67] (Complemented (Joined [Ranged 0 2 false false; Ranged 4 6 false true])) p], [0%nat]).
+Proof.
+  cbv zeta. split; [repeat constructor; cbn; intuition lia|]. split; [|vm_compute; reflexivity].
+  cbn [map nth_feat nth floc]. repeat constructor; cbn; lia.
+Qed.
+
+(* The whole table.  ck k f: feature f belongs to the class printed as k
+   (key and qualifiers as Repair itself compares them).  For EVERY table whose
+   ranges run forward and every class k: the features of class k in the
+   repaired table cover exactly the stranded residues the features of class k
+   covered before -- nothing is lost, nothing is gained, and nothing moves from
+   one class to another (so features that differ in key or qualifiers are never
+   merged) -- and every feature of the repaired table is a feature of the input
+   with its key and qualifiers, at most its location changed. *)
+Theorem C12_table_class_residues : forall ff k, Forall (fun f => rgood (floc f)) ff ->
+  Permutation (DD (map floc (filter (ck k) (repair ff)))) (DD (map floc (filter (ck k) ff))).
+Proof. exact repair_class_residues. Qed.
+Print Assumptions C12_table_class_residues.
+
+Theorem C12_table_keeps_key_and_qualifiers : forall ff, Forall (fun f => rgood (floc f)) ff ->
+  forall f, In f (repair ff) -> exists g, In g ff /\ fkey f = fkey g /\ fprops f = fprops g.
+Proof. exact repair_keeps_key_and_qualifiers. Qed.
+Print Assumptions C12_table_keeps_key_and_qualifiers.
+
+(* leaves unchanged any table in which nothing can merge: if within every
+   class (features printing the same key and qualifiers) no location merges
+   with any other -- by C12_only_abutting_partials_merge: no last range of one
+   ends where the first range of another starts with a 3'-partial end meeting
+   a 5'-partial start (any abutting ends when the class is a source class) --
+   then Repair returns the table exactly as it was, order included. *)
+Theorem C12_table_unchanged_when_nothing_merges : forall ff, nothing_merges ff -> repair ff = ff.
+Proof. exact repair_unchanged. Qed.
+Print Assumptions C12_table_unchanged_when_nothing_merges.
+
+Example C12_unchanged_example :
+  let ff := [mkfeat [103] (Ranged 0 6 false false) [[[103]; [97]]];
+             mkfeat [67] (Joined [Ranged 0 2 false false; Ranged 4 6 false true]) [[[103]; [97]]];
+             mkfeat [67] (Ranged 7 9 true false) [[[103]; [97]]];
+             mkfeat [67] (Ranged 6 9 true false) [[[103]; [98]]]] in
+  nothing_merges ff /\ repair ff = ff.
+Proof.
+  cbv zeta. split; [|vm_compute; reflexivity].
+  intros f g h Hf Hg Hh E1 E2. cbn [In] in Hf, Hg, Hh.
+  repeat match goal with
+  | H : _ \/ _ |- _ => destruct H
+  | H : False |- _ => contradiction
+  end; subst; try (vm_compute in E1; discriminate E1); try (vm_compute in E2; discriminate E2);
+  vm_compute; reflexivity.
+Qed.
+
+(* PARTIAL: idempotence, and restoration of multi-part features and after
+   several cuts, are decided by the correspondence and the oracle. *)
 
 (* restoration on a concrete table: a join cut inside its second range *)
 Example C12_example :
